@@ -27,6 +27,7 @@ inductive ExFields where
 end
 
 inductive ExX where
+  | importPath            -- `syn::parse_str::<Path>` of an import fails (mir_rust/src/import.rs)
   | recordNotFound
   | noVariant
   | ident (p : Panic)
@@ -178,6 +179,8 @@ structure ExampleSum where
 /-- `generate_example` -/
 def makeExample (schemas : SchemaTable) (cfg : Cfg) (op : Operation) : Except ExX ExampleSum :=
   let pkg := toSnake cfg.name
+  -- the imports are parsed as paths: a crate name that is a keyword (other than the path keywords) panics
+  if keywords.contains pkg && !([cs!"super", cs!"self", cs!"crate", cs!"try"].contains pkg) then .error .importPath else
   let useStruct := usesStruct op.params
   let val (p : Param) : Except ExX (Text × Ex) :=
     match liftXP (sanitize p.name), toRustExampleValue schemas p.ty p.name with
@@ -189,7 +192,7 @@ def makeExample (schemas : SchemaTable) (cfg : Cfg) (op : Operation) : Except Ex
   | .ok stem, .ok decls, .ok sets, .ok m, .ok rs =>
     .ok { stem := stem,
           imports := [pkg ++ cs!"::model::*", pkg ++ cs!"::" ++ cfg.name ++ cs!"Client"] ++
-            (if useStruct then [pkg ++ cs!"::request::" ++ stem ++ cs!"::" ++ op.name ++ cs!"Required"] else []),
+            (if useStruct then [pkg ++ cs!"::request::" ++ stem ++ cs!"::" ++ rs] else []),
           client := cfg.name ++ cs!"Client",
           decls := decls, method := m,
           args := if useStruct then .requiredStruct rs (decls.map (·.1)) else .positional (decls.map (·.1)),
